@@ -57,3 +57,35 @@ Proof.
         rewrite Nat.sub_succ_l by lia. lia.
       * split; [lia|]. rewrite Nat.sub_succ_l by lia. lia.
 Qed.
+
+(* ---- C11: the tasters of size-limited frames accept a body only if it fits ---- *)
+Lemma sized_is_body ty : is_sized ty = true -> has_body ty = true.
+Proof.
+  unfold is_sized, has_body. intros H. apply orb_true_iff in H as [H|H]; [apply orb_true_iff in H as [H|H]|];
+    rewrite H; repeat rewrite orb_true_r; reflexivity.
+Qed.
+
+Theorem taster_respects_limit mode f ty size :
+  check_frame mode f ty size = CkOk -> is_sized ty = true ->
+  (f_kind f = kS -> size <= f_param f) /\ (f_kind f = kR -> 3 <= mode -> size <= mode - 3).
+Proof.
+  unfold check_frame. intros H S. rewrite S in H.
+  destruct (f_kind f =? kB) eqn:EB; [discriminate|].
+  destruct ((f_kind f =? kI) && negb ((ty =? tok_INT) || (ty =? tok_NEG))) eqn:EI; [discriminate|].
+  split.
+  - intros K. rewrite K in H. change (kS =? kS) with true in H. cbn [andb] in H.
+    destruct (Z.ltb_spec (f_param f) size); [discriminate|lia].
+  - intros K M. rewrite K in H.
+    change (kR =? kS) with false in H. change (kR =? kN) with false in H. change (kR =? kQ) with false in H.
+    change (kR =? kR) with true in H. cbn [andb] in H.
+    destruct ((mode =? 1) && negb ((ty =? tok_INT) || (ty =? tok_NEG) || (ty =? tok_OPEN))); [discriminate|].
+    destruct ((mode =? 2) && (ty =? tok_FLOAT)); [discriminate|].
+    destruct (Z.leb_spec 3 mode); [|lia]. cbn [andb] in H.
+    destruct (Z.ltb_spec (mode - 3) size); [discriminate|lia].
+Qed.
+
+(* index tokens are limited to INDEX_MAX bytes whatever the schema *)
+Theorem index_token_limit ty size : opener_check ty size = CkOk -> ty = tok_STRING -> size <= INDEX_MAX.
+Proof.
+  unfold opener_check. intros H ->. rewrite Z.eqb_refl in H. destruct (Z.ltb_spec INDEX_MAX size); [discriminate|lia].
+Qed.
